@@ -46,7 +46,7 @@ def main(tier):
                 "distinct by the whole history")
     insts = instances(tier)
     jobs = [dict(module_path=MODULE, cfg=tlc.make_cfg(constants=c, invariants=["LossLaws", "Emit"], constraint="InOrder"),
-                 constants=c, coverage=True, workers=6, timeout=6000) for c in insts]
+                 constants=c, coverage=False, workers=6, timeout=6000) for c in insts]
     behaviours = []
     for r in tlc.run_many(jobs, parallel=3):
         chk.add_tlc(r, vacuity_actions=("New", "LossOp"))
@@ -54,6 +54,7 @@ def main(tier):
             chk.spec_violation(r, "loss laws fail in the specification itself")
         behaviours += [c["hist"] for c in r.cases]
     chk.exhaustive = True
+    core.require_ops(behaviours, ["New", "BuildAppend", "RoundTrip", "Loss"])
     for fails, n in core.pmap(storereplay.replay_chunk, core.shards(behaviours, 64)):
         chk.evaluations += n
         chk.traces += n
